@@ -172,6 +172,9 @@ def run(ctx):
                 mother = rng.choice([n for n in names if gen.safe_label(n) and charge_conjugate_name(n) not in (n, wrapped(n)) and gen.safe_label(charge_conjugate_name(n))])
                 cm = charge_conjugate_name(mother)
                 text = f"Decay {mother}\n0.5 {' '.join(safe)} PHSP;\nEnddecay\nCDecay {cm}\n"
+                if rng.random() < 0.5:
+                    # further CDecay statements without a source table, sorting before and after the real one: they add nothing
+                    text += "CDecay (nosrc)\nCDecay zzz_nosrc\n"
                 unknown = [d for d in safe if d in ("Zork", "MyX")]
                 if unknown and rng.random() < 0.7:
                     # the same decay in a file that declares partners for the unknown labels (either orientation), read first in the
